@@ -391,6 +391,12 @@ func c11Stability(c core.Case, res *core.Result) {
 	var mu sync.Mutex
 	var firstBad string
 	checked := atomic.Int64{}
+	// one wal shared by all goroutines: every batch must come back whole, in order and contiguous
+	sharedDir := filepath.Join(dir, "shared")
+	mustMkdir(sharedDir)
+	shared, serr := wal.Create(sharedDir)
+	var smu sync.Mutex
+	sharedBatches := map[string][]types.Entry{} // first key of the batch (unique) -> batch
 	var wg sync.WaitGroup
 	for g := 0; g < G; g++ {
 		wg.Add(1)
@@ -456,6 +462,14 @@ func c11Stability(c core.Case, res *core.Result) {
 					hold("table.Build", b)
 				default:
 					w.Write(es...)
+					if serr == nil && len(es) > 0 {
+						id := fmt.Sprintf("batch-g%d-%d", g, i)
+						es[0].Key = id
+						smu.Lock()
+						sharedBatches[id] = es
+						smu.Unlock()
+						shared.Write(es...)
+					}
 				}
 				active.Add(-1)
 				if len(held) >= 1+r.Intn(6) {
@@ -468,6 +482,32 @@ func c11Stability(c core.Case, res *core.Result) {
 	wg.Wait()
 	if firstBad != "" {
 		res.Violate("C11", "C11/stability/bytes-changed", "%s", firstBad)
+	}
+	if serr == nil {
+		got, err := shared.Read()
+		if err != nil {
+			res.Violate("C11", "C11/wal-shared/read-error", "Read of a wal written by %d goroutines concurrently: %v", G, err)
+		} else {
+			n := 0
+			for i := 0; i < len(got); {
+				b, ok := sharedBatches[got[i].Key]
+				if !ok || i+len(b) > len(got) {
+					res.Violate("C11", "C11/wal-shared/interleaved", "record %d of the shared wal (key %q) does not start a batch that was written (batches of concurrent writers are interleaved or damaged)", i, got[i].Key)
+					break
+				}
+				if diff := c11SameList(got[i:i+len(b)], b); diff != "" {
+					res.Violate("C11", "C11/wal-shared/batch-damaged", "batch %q of the shared wal: %s", got[i].Key, diff)
+					break
+				}
+				i += len(b)
+				n++
+			}
+			if res.Verdict == "" && n != len(sharedBatches) {
+				res.Violate("C11", "C11/wal-shared/batch-lost", "shared wal holds %d batches, %d were written", n, len(sharedBatches))
+			}
+			res.AddObs("shared_wal_batches", int64(n))
+		}
+		shared.Delete()
 	}
 	res.AddObs("stability_slices_checked", checked.Load())
 	res.AddObs("stability_overlapping_encodings", overlapped.Load())
